@@ -70,13 +70,16 @@ def get_facts(config="default", repo=None):
     with open(os.path.join(CACHE, "lock"), "w") as lock:
         fcntl.flock(lock, fcntl.LOCK_EX)
         ensure_driver()
-        h = _sha_tree(repo)
-        with open(DRIVER, "rb") as fh:
-            h.update(hashlib.sha256(fh.read()).digest())
-        h.update(config.encode())
-        key = h.hexdigest()[:32]
-        out = os.path.join(CACHE, key + ".json")
-        info = {"cache_key": key, "config": config, "cached": True, "extract_s": 0.0}
+        fcntl.flock(lock, fcntl.LOCK_UN)
+    h = _sha_tree(repo)
+    with open(DRIVER, "rb") as fh:
+        h.update(hashlib.sha256(fh.read()).digest())
+    h.update(config.encode())
+    key = h.hexdigest()[:32]
+    out = os.path.join(CACHE, key + ".json")
+    info = {"cache_key": key, "config": config, "cached": True, "extract_s": 0.0}
+    with open(os.path.join(CACHE, "lock-" + key), "w") as lock:
+        fcntl.flock(lock, fcntl.LOCK_EX)
         if not os.path.exists(out):
             t0 = time.time()
             tmp_out = out + ".new%d" % os.getpid()
@@ -90,9 +93,10 @@ def get_facts(config="default", repo=None):
             info["extract_s"] = round(time.time() - t0, 2)
             # keep the cache small
             ents = sorted((os.path.getmtime(os.path.join(CACHE, f)), f) for f in os.listdir(CACHE) if f.endswith(".json"))
-            for _, f in ents[:-12]:
+            for _, f in ents[:-40]:
                 try:
                     os.remove(os.path.join(CACHE, f))
+                    os.remove(os.path.join(CACHE, "lock-" + f[:-5]))
                 except OSError:
                     pass
         fcntl.flock(lock, fcntl.LOCK_UN)
